@@ -20,7 +20,7 @@ RULE = ("one case = one (content, operation+arguments, layout) triple; every con
 ASSUMPTIONS = ["layouts are those reachable with the library and standard Arrow kernels; a missing row over hidden non-empty children "
                "(only constructible with StructArray.from_arrays(mask=...)) is the known finding KF-hidden-children and gets its own cases"]
 CORRESPONDENCE = "m_step (Steps.v) on the physical read-back of every layout vs the real operation"
-LAYOUTS = [l for l in gen.LAYOUTS if l != "missing_hidden"]
+LAYOUTS = list(gen.LAYOUTS)
 
 OPS = [
     ("getitem_int", ao.op_getitem_int), ("getitem_slice", ao.op_getitem_slice), ("getitem_mask", ao.op_getitem_mask),
